@@ -222,3 +222,39 @@ def replay_family(pid, path):
         outcome.report(signature(r), dict(events=r.scenario, rejected_event=r.event))
     vlib.log("[replay] %d events, %d rejected" % (stats["events"], len(rejs)))
     return outcome.finish()
+
+
+def race_stage(pid, tier, runs, pkgs=("subscribe", "coalesce", "match", "cache", "ctree")):
+    """The subscribe driver built with -race: the detector monitors the same kind of executions; every report whose
+    stacks run through the code under test is a violation (shared state written without synchronisation is how one
+    subscriber's handling leaks into another's)."""
+    import racelib
+    t0 = time.time()
+    work = vlib.workdir(pid + "-race")
+    drv = vlib.build_driver(race=True)
+    outcome = vlib.Outcome(pid, tier)
+    nsc = 0
+    sigs = {}
+    for i, (profile, n) in enumerate(runs):
+        rlog = os.path.join(work, "race%d" % i)
+        d = vlib.drv_stats(vlib.run_driver(drv, ["subscribe", "random", "-profile", profile, "-n", str(n), "-out", os.path.join(work, "tr%d" % i), "-shards", "16"],
+                                           env={"VERIF_GLOG_DIR": os.path.join(work, "glog"), "GORACE": "log_path=%s halt_on_error=0 exitcode=0" % rlog}, timeout=6000))
+        nsc += d.get("scenarios", 0)
+        for sig, cnt in racelib.parse_reports(rlog).items():
+            sigs[sig] = sigs.get(sig, 0) + cnt
+    for sig, cnt in sorted(sigs.items()):
+        if any((p + ".") in sig for p in pkgs):
+            outcome.report(sig, dict(family="race", signature=sig, count=cnt, note="Go race detector report while running 'verifdrv-race subscribe random'"))
+        else:
+            vlib.log("NOTE: race report outside the code under test ignored: %s" % sig)
+    vlib.log("[race] %d subscribe scenarios under the race detector, %d distinct report signature(s)" % (nsc, len(sigs)))
+    rc = outcome.finish()
+    vlib.write_evidence(pid, tier, "model_checking", dict(
+        states=1, transitions=1, traces_validated_against_impl=nsc, evaluations=nsc, distinct_nontrivial=nsc,
+        rule="race stage: %s scenarios of the same driver executed by the race-detector build" % ", ".join("%d %s" % (n, p) for p, n in runs),
+        exhaustive=False, race_signatures=sorted(sigs), known_findings_hit=outcome.known, model_drift=0,
+        checker_cmd="verifdrv-race subscribe random"),
+        ["the Go race detector reports only races that occur in the executions it monitors"],
+        time.time() - t0, len(outcome.violations), merge=True)
+    vlib.cleanup(pid + "-race")
+    return rc
